@@ -45,13 +45,13 @@ def stop_observe():
     _SINK = None
 
 
-FOLDERS = ["", "a", "a/b", "c"]
+FOLDERS = ["", "a", "a/b", "c", "nested.csv"]
 FILES = ["f1.csv", "f2.csv", "g.csv", "h.csv", "in_1.csv", "in_2.csv", "notes.txt", "k.CSV"]
 
 
 def gen_tree(rng, hostile=False, max_files=6):
     """A tree description: files with block lists; include lines are specification strings."""
-    nfold = rng.choice([1, 2, 3, 4])
+    nfold = rng.choice([1, 2, 3, 4, 5, 5])
     folders = FOLDERS[:nfold]
     nfiles = rng.randint(1, max_files)
     files = []
@@ -195,7 +195,10 @@ def run_load(tree, base, root, cfg):
                 rec = ["yield", bt.name]
                 if bt == BlockType.TABLE:
                     loc = b.metadata.origin.input_location
-                    hist = [[li.specification, None if li.source is None else str(getattr(li.source, "local_folder_path", None))]
+                    hist = [[li.specification, None if li.source is None else str(getattr(li.source, "local_folder_path", None)),
+                             # where the item was named: the row of the include directive and the file holding it
+                             getattr(li.source, "row", None),
+                             None if not hasattr(li.source, "row") else str(li.source.file.local_path)]
                             for li in loc.load_specification.load_history()]
                     rec += [str(loc.file.local_path), b.name, loc.row, loc.sheet_name, hist]
                     tables.append(b)
